@@ -25,8 +25,8 @@ RULE = ('cases: seeded histories of 15-30 add/remove/lookup ops over a universe 
 ASSUMPTIONS = ['agents\' component sets are not modified while resident (C03\'s dimension)',
                'an out-of-bounds placement may raise any Exception subclass other than DuplicateAgentError (the documented error is a bare Exception)',
                'snapshots read documented public attributes']
-FLOORS = {'quick': {'probe_dup_same': 3000, 'probe_dup_impostor': 3000, 'probe_remove_unknown': 3000, 'probe_strict_unknown': 3000,
-                    'probe_oob': 5000, 'probe_oob_taken_id': 500, 'middle_removals': 400, 'big_environments': 4, 'big_ops': 1000, 'edge_placements': 200,
+FLOORS = {'quick': {'falsy_agent_objects': 319, 'deprecated_alias_calls': 308, 'probe_dup_same': 3000, 'probe_dup_impostor': 3000, 'probe_remove_unknown': 3000, 'probe_strict_unknown': 3000,
+                    'probe_oob': 5000, 'probe_oob_taken_id': 500, 'middle_removals': 384, 'big_environments': 4, 'big_ops': 1000, 'edge_placements': 200,
                     'accessor_comparisons': 5000, 'rejected_agent_without_position': 5000, 'contract:Environment.registry': 50000, 'contract:SpaceWorld.containment': 50000,
                     'reach:Core.Environment.add_agent': 5000, 'reach:Environments.SpaceWorld.add_agent': 5000},
           'thorough': {'probe_oob': 300000, 'probe_dup_impostor': 150000, 'accessor_comparisons': 460000}}
@@ -82,10 +82,17 @@ def case_history(ctx, case):
     grid = kind in ('discrete', 'line', 'grid')
     off = 1 if grid else 0
     step = 1 if grid else 0.125
-    ids = [f'id{j}' for j in range(rng.randint(4, 6))]
+    from vlib import reps
+    import warnings
+    ids = [reps.as_str(rng, f'id{j}', allow_enum=False) for j in range(rng.randint(4, 6))]     # identifiers may be str-subclass instances
+    # user agent classes: plain, and one whose truth value is its own business ('alive' flag: False) - still an agent like any other
+    Mortal = type('Mortal', (core.Agent,), {'__bool__': lambda self: False})
     universe = []
     for j in range(rng.randint(6, 10)):
-        a = core.Agent(rng.choice(ids), model, tag=rng.choice([None, 0, 1, 5]))
+        A = Mortal if rng.random() < 0.25 else core.Agent
+        if A is Mortal:
+            ctx.count('falsy_agent_objects')
+        a = A(rng.choice(ids), model, tag=reps.as_int(rng, rng.choice([None, 0, 1, 5])))
         for T in K:
             if rng.random() < 0.5:
                 a.add_component(T(a, model))
@@ -228,6 +235,12 @@ def case_history(ctx, case):
                     if before != after:
                         raise CaseViolation(f'placement {jpos} was refused but changed {diff(before, after)}', world=(kind, ext), trace=trace[-8:])
                     continue
+            elif rng.random() < 0.12:
+                with warnings.catch_warnings():         # the deprecated spelling: same operation, default placement at the origin
+                    warnings.simplefilter('ignore')
+                    env.addAgent(b)
+                pos = (0, 0, 0) if spatial else ()
+                ctx.count('deprecated_alias_calls')
             else:
                 env.add_agent(b, *pos)
             if b.id in left and left[b.id] is not b:
@@ -245,7 +258,13 @@ def case_history(ctx, case):
             if 0 < keys.index(i) < len(keys) - 1:
                 ctx.count('middle_removals')
                 flags.add('middle')
-            env.remove_agent(i)           # removing a present agent always succeeds
+            if rng.random() < 0.12:
+                with warnings.catch_warnings():
+                    warnings.simplefilter('ignore')
+                    env.removeAgent(i)        # deprecated spelling
+                ctx.count('deprecated_alias_calls')
+            else:
+                env.remove_agent(i)           # removing a present agent always succeeds
             left[i] = ref.pop(i)
             trace.append(('remove', i))
         else:
